@@ -16,5 +16,6 @@ CONSTANTS
   BugNoTerminate = FALSE
   BugKeepType = FALSE
   BugNoStatus = FALSE
-INVARIANTS TourDone Legal ReadExact WriteExact KindRight HealthyOk FaultIsError FailedInitForgets
+  BugPreCount = FALSE
+INVARIANTS TourDone Legal ReadExact WriteExact NowhereElse KindRight HealthyOk FaultIsError FailedInitForgets
 CHECK_DEADLOCK FALSE
